@@ -30,6 +30,7 @@ type chunkOut struct {
 	Samples      []any          `json:"samples"`
 	Failures     []Failure      `json:"failures"`
 	Model        []string       `json:"model"`
+	Slicer       []string       `json:"slicer"`
 	ModelN       int            `json:"model_n"`
 	ModelSkipped int            `json:"model_skipped"`
 	Notes        []string       `json:"notes"`
@@ -114,7 +115,7 @@ func childMain(o Opts, spec string) error {
 		c.res.CountN("run-stuck-outside-watchdog", guardStuck)
 	}
 	out := chunkOut{Evaluations: c.res.Evaluations, Counts: c.res.Dist, Distinct: c.distinctKeys, Samples: c.res.Samples,
-		Failures: c.res.Failures, Model: c.mc.items, ModelN: c.mc.n, ModelSkipped: c.mc.skipped, Notes: c.res.Notes}
+		Failures: c.res.Failures, Model: c.mc.items, Slicer: c.mc.slicer, ModelN: c.mc.n, ModelSkipped: c.mc.skipped, Notes: c.res.Notes}
 	b, err := json.Marshal(out)
 	if err != nil {
 		return err
@@ -306,6 +307,13 @@ func parentMain(o Opts, plan []unitRange, chunk int, limit time.Duration) (*Resu
 			if !mc.seen[it] {
 				mc.seen[it] = true
 				mc.items = append(mc.items, it)
+				mc.n++
+			}
+		}
+		for _, it := range cr.out.Slicer {
+			if !mc.seen[it] {
+				mc.seen[it] = true
+				mc.slicer = append(mc.slicer, it)
 				mc.n++
 			}
 		}
